@@ -80,6 +80,10 @@ def configs(tier):
     for nvec in (1, 2):
         out.append(dict(kind="product", law="dot-value", ua="m", ub="cm", shape=[2], dt="float64", nvec=nvec))
     out.append(dict(kind="ctor"))
+    # the norm after an in-place change of the Vector (a remembered norm must not be observable)
+    for mut in ("imul", "iadd", "comp-iadd", "set"):
+        for nvec in (2, 3):
+            out.append(dict(kind="norm", nvec=nvec, ua="m", shape=[2], dt="float64", mut=mut))
     # components assigned after construction (v.z = ..., v.x = ...): every operation must see the current components
     for late in ("add", "replace"):
         for nvec in (2, 3):
@@ -336,6 +340,19 @@ def body(m, cfg):
         nvec, ua = cfg["nvec"], cfg["ua"]
         tag = f"norm:n{nvec}" + (":late-" + cfg["late"] if cfg.get("late") else "")
         v = mkvec(m, "a", nvec, shape, dt, ua)
+        if cfg.get("mut"):
+            # the norm asked for once, then the Vector changed in place, then the norm under check
+            tag += ":after-" + cfg["mut"]
+            v.norm
+            str(v)
+            if cfg["mut"] == "imul":
+                v *= 2.0
+            elif cfg["mut"] == "iadd":
+                v += mkvec(m, "w", nvec, shape, dt, ua)
+            elif cfg["mut"] == "comp-iadd":
+                v.x += Array(m.array("d", tuple(shape), dt), unit=ua)
+            elif cfg["mut"] == "set":
+                v.x.values[0] = m.real("nv")
         n = v.norm
         if not m.require(isinstance(n, Array) and tuple(n.shape) == tuple(shape), "norm is an Array of the row shape",
                          key=f"type:{tag}"):
